@@ -214,7 +214,7 @@ def run(ctx):
                         "runs": r["runs"], "per_level": r["per_preemption_level"], "truncated": r["truncated"]})
 
     # 2. K-chan + monitor on generated scenarios, attribute granularity
-    n_attr = 3500 if thorough else 480
+    n_attr = 3500 if thorough else 430
     for n in range(n_attr):
         sc = H.gen_race_scenario(rng) if rng.random() < 0.35 else H.gen_scenario(rng)
         for k in sc["msgs"]:
@@ -230,7 +230,7 @@ def run(ctx):
             samples.append({"scenario": sc, "policy": pk, "labels": labs[:14], "verdict": v})
 
     # 3. monitor on generated scenarios, lock granularity (coarser steps, more schedules)
-    n_lock = 7000 if thorough else 750
+    n_lock = 7000 if thorough else 600
     for n in range(n_lock):
         sc = H.gen_race_scenario(rng) if rng.random() < 0.35 else H.gen_scenario(rng)
         pk = rng.choice(["random", "random", "pct1", "pct2", "pct3"])
